@@ -78,8 +78,11 @@ def c01_candidates(P, uni, sibling_labels=('e', 'a', 'b', 'c')):
     if bs is None:
         return out
     o, v = bs
+    if v < 100:
+        return out
     o_ref = oref(o)
-    T0 = mk_tx([(o_ref, K[0])], [(COIN, K[1]), (v - COIN - 1000, K[0])])
+    COIN = min(globals()['COIN'], v // 3)
+    T0 = mk_tx([(o_ref, K[0])], [(COIN, K[1]), (v - COIN - 1000 % (v // 10), K[0])])
     h = P.height + 1
     o1 = owned(U, K[1])
     o0 = owned(U, K[0])
@@ -127,8 +130,8 @@ def c01_candidates(P, uni, sibling_labels=('e', 'a', 'b', 'c')):
     if o1:
         _blk(P, [T2, T0], 'same-ref-in-two-txs-2in', out)
     # ---- signatures
-    _blk(P, [mk_tx([(o_ref, K[1])], [(COIN, K[1]), (v - COIN - 1000, K[0])])], 'signed-by-other-wallet-key', out)
-    _blk(P, [mk_tx([(o_ref, K[2])], [(COIN, K[1]), (v - COIN - 1000, K[0])])], 'signed-by-foreign-key', out)
+    _blk(P, [mk_tx([(o_ref, K[1])], [(COIN, K[1]), (v - COIN - 1000 % (v // 10), K[0])])], 'signed-by-other-wallet-key', out)
+    _blk(P, [mk_tx([(o_ref, K[2])], [(COIN, K[1]), (v - COIN - 1000 % (v // 10), K[0])])], 'signed-by-foreign-key', out)
     s0 = T0.inputs[0].signature
     _blk(P, [Transaction([Input(o_ref, s0)], [Output(COIN, K[2].pk), T0.outputs[1]])], 'recipient-changed-after-signing', out)
     _blk(P, [Transaction([Input(o_ref, s0)], [Output(COIN - 1, K[1].pk), T0.outputs[1]])], 'value-changed-after-signing', out)
@@ -143,7 +146,7 @@ def c01_candidates(P, uni, sibling_labels=('e', 'a', 'b', 'c')):
         final = Transaction([Input(o_ref, SignableEquivalent()), Input(oref(r2), SignableEquivalent())], list(T0.outputs))
         s2 = SECP256k1Signature(sign(k2, enc.signed_message(final)))
         _blk(P, [Transaction([Input(o_ref, s0), Input(oref(r2), s2)], list(T0.outputs))], 'input-added-after-signing', out)
-        both = mk_tx([(o_ref, K[0]), (oref(r2), k2)], list(zip([COIN, v - COIN - 1000], [K[1], K[0]])))
+        both = mk_tx([(o_ref, K[0]), (oref(r2), k2)], list(zip([COIN, v - COIN - 1000 % (v // 10)], [K[1], K[0]])))
         _blk(P, [Transaction([both.inputs[0]], list(both.outputs))], 'input-removed-after-signing', out)
         _blk(P, [Transaction([both.inputs[1], both.inputs[0]], list(both.outputs))], 'inputs-reordered-after-signing', out)
         if U[r2][1] == K[0].pub:
@@ -231,8 +234,13 @@ def c02_candidates(P, uni):
     if bs is None:
         return out
     o, v = bs
+    if v < 100:
+        return out
     o_ref = oref(o)
-    fee = 1000
+    COIN = min(globals()['COIN'], v // 3)
+    fee = 1000 % (v // 10)
+    if fee < 3:
+        return out
     T0 = mk_tx([(o_ref, K[0])], [(COIN, K[1]), (v - COIN - fee, K[0])])
     M = K[4]
     # ---- reward bound
